@@ -78,6 +78,7 @@ class Group:
     object_bits: int = None
     note: str = ''
     param: str = ''                     # distinguishing parameter (type pair, loop shape ...)
+    ignore: str = None                  # regex on obligation keys of harness helper code that are not obligations on libocca
 
 
 @dataclasses.dataclass
@@ -293,11 +294,15 @@ def run_group_once(g, gdir, extra_defs=()):
             last = 'back end %s gave no verdict: %s' % (s, '; '.join(errs)[-400:] or (err or '')[-400:])
             continue
         if any(r.get('status') not in ('SUCCESS', 'FAILURE') for r in results):
-            last = 'back end %s returned ERROR/UNKNOWN statuses' % s
+            badr = [r for r in results if r.get('status') not in ('SUCCESS', 'FAILURE')][:3]
+            last = 'back end %s returned ERROR/UNKNOWN statuses: %s' % (
+                s, '; '.join('%s %s [%s]' % (r['property'], r.get('status'), r.get('description', '')[:60]) for r in badr))
             continue
         obs = []
         for r in results:
             fn = (r.get('sourceLocation') or {}).get('function', '') or r['property'].split('.')[0]
+            if g.ignore and re.search(g.ignore, stable_key(r['property'], r['description'], fn)):
+                continue
             obs.append(Obligation(group=g.name, prop=r['property'],
                                   key=stable_key(r['property'], r['description'], fn),
                                   desc=r['description'], status=r['status'], function=fn,
